@@ -110,6 +110,12 @@ def build(rng):
     items = []
     for it, o in zip(skeleton, offs):
         items.append(make_use(rng, labs, pess, o) if it['k'] == 'USE' else it)
+    if rng.random() < 0.08:
+        # a constant defined from labels (`LEN = L1 - S`): refused by the current assembler; a build that accepts it owes the
+        # final value like any other label arithmetic
+        a, b = rng.choice(labs), 'S'
+        items = [{'k': 'const', 'name': 'KLEN', 'labexpr': {'diff': [a, b]}, 'value': None, 'text': ''}] + items
+        items += [{'k': 'data', 'd': 'dw', 'val': {'labconst': 'KLEN'}}, {'k': 'pseudo', 'm': 'li', 'ops': [{'r': 5}, {'labconst': 'KLEN'}]}]
     return items, pess
 
 
